@@ -686,3 +686,60 @@ Proof.
     destruct (f_writeat (fdata s) hh b off) as [[dd h'] r]. cbn [fst snd] in *. subst h'.
     destruct dd; cbn [upd_d upd_h fhandles fst]; now apply list_set_same.
 Qed.
+
+(* ------------------------------------------------------------------------------------------ *)
+(* the statements of Props/C02.v in their published form                                       *)
+
+Lemma wf_op_meaning o :
+  wf_op o = true <-> match o with HRead _ n | HReadAt _ n _ => 0 <= n | _ => True end.
+Proof. destruct o; cbn [wf_op]; try tauto; apply Z.leb_le. Qed.
+
+Lemma op_handle_meaning o i :
+  op_handle o = Some i <->
+  match o with
+  | HRead j _ | HReadAt j _ _ | HWrite j _ | HWriteAt j _ _ | HWriteString j _
+  | HSeek j _ _ | HTruncate j _ | HClose j | HReaddir j _ | HReaddirnames j _
+  | HStat j | HName j | HSync j => j = i
+  | _ => False
+  end.
+Proof. destruct o; cbn [op_handle]; split; intros H; try discriminate; try contradiction; congruence. Qed.
+
+Lemma c02_refines (content : bytes) (spec : list (bool * bool)) (ops : list op) :
+  (forall o, In o ops -> wf_op o = true) ->
+  let '(s, outs) := run_steps mf_step (mf_init content spec) ops in
+  let '(t, pouts) := bf_run (bf_init content spec) ops in
+  map (fun '(o, r) => proj o r) (combine ops outs) = pouts /\ fdata s = bdata t.
+Proof. intros H. apply memfile_refines. now apply Forall_forall. Qed.
+
+Lemma c02_never_panics (content : bytes) (spec : list (bool * bool)) (ops : list op) :
+  (forall o, In o ops -> wf_op o = true) ->
+  ~ In RPanic (snd (run_steps mf_step (mf_init content spec) ops)).
+Proof. intros H. apply memfile_never_panics. now apply Forall_forall. Qed.
+
+Lemma c02_offsets (content : bytes) (spec : list (bool * bool)) (ops : list op) :
+  (forall o, In o ops -> wf_op o = true) ->
+  let s := fst (run_steps mf_step (mf_init content spec) ops) in
+  let t := fst (bf_run (bf_init content spec) ops) in
+  map hat (fhandles s) = map (fun b => Z.of_nat (bpos b)) (bhs t) /\
+  map hclosed (fhandles s) = map bclosed (bhs t) /\
+  map hro (fhandles s) = map bro (bhs t).
+Proof. intros H. apply memfile_offsets. now apply Forall_forall. Qed.
+
+Lemma c02_inert_handles (s : fstate) (o : op) (i : nat) (h : hnd) :
+  nth_error (fhandles s) i = Some h ->
+  hro h = true \/ hclosed h = true ->
+  op_handle o = Some i ->
+  fdata (fst (mf_step s o)) = fdata s.
+Proof.
+  intros Eh Hin Ho. apply (memfile_inert_handles s o i Ho).
+  intros h' Eh'. rewrite Eh in Eh'. now inversion Eh'; subst.
+Qed.
+
+(* an operation through a slot that holds no handle changes nothing at all *)
+Lemma c02_missing_handle (s : fstate) (o : op) (i : nat) :
+  op_handle o = Some i -> nth_error (fhandles s) i = None ->
+  mf_step s o = (s, RNoSlot).
+Proof.
+  intros Ho En. destruct o; try discriminate Ho; try reflexivity;
+    cbn [op_handle] in Ho; inversion Ho; subst; unfold mf_step; now rewrite En.
+Qed.
